@@ -19,6 +19,17 @@ use log4rs::encode::{self, pattern::PatternEncoder, Color, Encode, Style};
 use std::io;
 use std::panic::AssertUnwindSafe;
 
+/// a console appender with this pattern, loaded the way `load_config_file` loads it (JSON text is YAML)
+fn load_through_config_file(pattern: &str) {
+    let doc = format!(
+        "{{\"appenders\": {{\"a\": {{\"kind\": \"console\", \"encoder\": {{\"kind\": \"pattern\", \"pattern\": {}}}}}}}}}",
+        serde_json::to_string(pattern).unwrap()
+    );
+    if let Ok(raw) = serde_yaml::from_str::<log4rs::config::RawConfig>(&doc) {
+        let (_appenders, _errors) = raw.appenders_lossy(&log4rs::config::Deserializers::default());
+    }
+}
+
 // ------------------------------------------------------------------------------------------------
 // character classes: the non-ASCII sample characters used by the generators and how Rust
 // classifies them (alphabetic, alphanumeric). The Lean driver holds the same table
@@ -687,6 +698,13 @@ fn run_in_thread(c: &Case) -> String {
         Ok(e) => e,
         Err(_) => return format!("PANIC:new - {}", tail(&render_all(&fmts, at))),
     };
+    // the configuration-FILE path to the same encoder (`encoder: {kind: pattern, pattern: …}` through
+    // `RawConfig::appenders_lossy` and the `Deserializers` registry): loading must not panic either,
+    // whatever the pattern (fd 2 is on /dev/full during `exec`: reporting a pattern error with `eprintln!`
+    // at load time would be a panic here — independently seeded change C11_r7_2)
+    if guarded(AssertUnwindSafe(|| load_through_config_file(&c.pattern))).is_err() {
+        return format!("PANIC:config-file - {}", tail(&render_all(&fmts, at)));
+    }
     if !widths_sane(&c.pattern) {
         return format!("new-only - {}", tail(&render_all(&fmts, at)));
     }
@@ -889,10 +907,61 @@ pub fn run_case(c: &Case) -> String {
         Some(n) => b.name(n.clone()),
         None => b,
     };
-    match b.spawn(move || run_in_thread(&c2)) {
-        Ok(h) => h.join().unwrap_or_else(|_| "PANIC:harness".to_owned()),
+    // A thread-local object registered BEFORE the thread's first encode is destroyed AFTER every
+    // thread-local the encoder registers later; its destructor encodes the thread and process ids once
+    // more (an application object that logs a closing line when its thread ends). That encode must work
+    // and give what it gave while the thread was alive — a cached id with a destructor of its own is gone
+    // by then (independently seeded change C11_r7_1).
+    let live: std::sync::Arc<std::sync::Mutex<Option<String>>> = Default::default();
+    let late: std::sync::Arc<std::sync::Mutex<Option<Result<String, ()>>>> = Default::default();
+    let (live2, late2) = (live.clone(), late.clone());
+    let joined = b.spawn(move || {
+        TLS_PROBE.with(|p| *p.borrow_mut() = Some(TlsProbe { out: late2 }));
+        let obs = run_in_thread(&c2);
+        *live2.lock().unwrap() = guarded(AssertUnwindSafe(encode_ids)).ok();
+        obs
+    });
+    match joined {
+        Ok(h) => {
+            let obs = h.join().unwrap_or_else(|_| "PANIC:harness".to_owned());
+            let live = live.lock().unwrap().clone();
+            let late = late.lock().unwrap().clone();
+            let same = match (&live, &late) {
+                (Some(a), Some(Ok(b))) => a == b,
+                _ => false,
+            };
+            if same || obs.starts_with("PANIC") {
+                obs
+            } else {
+                let parts: Vec<&str> = obs.splitn(3, ' ').collect();
+                format!("PANIC:tls-drop - {}", parts.get(2).copied().unwrap_or(""))
+            }
+        }
         Err(_) => "bad-case".to_owned(),
     }
+}
+
+struct TlsProbe {
+    out: std::sync::Arc<std::sync::Mutex<Option<Result<String, ()>>>>,
+}
+
+impl Drop for TlsProbe {
+    fn drop(&mut self) {
+        let r = guarded(AssertUnwindSafe(encode_ids));
+        *self.out.lock().unwrap() = Some(r.map_err(|_| ()));
+    }
+}
+
+thread_local! {
+    static TLS_PROBE: std::cell::RefCell<Option<TlsProbe>> = std::cell::RefCell::new(None);
+}
+
+/// `{i}|{I}|{P}` of the current thread through a fresh encoder
+fn encode_ids() -> String {
+    let enc = PatternEncoder::new("{i}|{I}|{P}");
+    let mut cap = Cap::default();
+    let _ = enc.encode(&mut cap, &log::Record::builder().args(format_args!("bye")).build());
+    render_items(&cap.items)
 }
 
 static TABLE_CHECKED: std::sync::Once = std::sync::Once::new();
